@@ -161,12 +161,15 @@ def write_anc(grp, name, data, labels, units, dtype):
     return d
 
 
-def write_layout(h5, lay, group='Measurement_000/Channel_000', main_name='Raw_Data', chunks=None, compression=None):
+def write_layout(h5, lay, group='Measurement_000/Channel_000', main_name='Raw_Data', chunks=None, compression=None,
+                 val_dtype=np.float32, val_transform=None):
+    """val_dtype / val_transform: ancillary Values stored in another element type, mapped through a function first"""
+    vt = val_transform or (lambda a: a)
     grp = h5.require_group(group)
     pi = write_anc(grp, 'Position_Indices', lay.pos_inds(), lay.pos_labels, lay.pos_units, np.uint32)
-    pv = write_anc(grp, 'Position_Values', lay.pos_vals(), lay.pos_labels, lay.pos_units, np.float32)
+    pv = write_anc(grp, 'Position_Values', vt(lay.pos_vals().astype(np.float64)), lay.pos_labels, lay.pos_units, val_dtype)
     si = write_anc(grp, 'Spectroscopic_Indices', lay.spec_inds(), lay.spec_labels, lay.spec_units, np.uint32)
-    sv = write_anc(grp, 'Spectroscopic_Values', lay.spec_vals(), lay.spec_labels, lay.spec_units, np.float32)
+    sv = write_anc(grp, 'Spectroscopic_Values', vt(lay.spec_vals().astype(np.float64)), lay.spec_labels, lay.spec_units, val_dtype)
     kw = {}
     if chunks:
         kw['chunks'] = chunks
